@@ -331,8 +331,18 @@ fn rcv_on_send(p: &Packet) {
         match p {
             Packet::Ack(k) => {
                 if on(O_STORE) {
-                    assert!(*k == M.last_inorder, "ORACLE store: ACK for a block that is not the last one received in sequence");
-                    assert!(file_equals_ghost(), "ORACLE store: ACK emitted while acknowledged bytes are not (exactly) in the file");
+                    // ACK(k) must name a block received in sequence: the last one, or (a repeated / stale
+                    // acknowledgement, which the property allows) one behind it in the wrapping order.  The
+                    // history before the injected state is unknown, so "behind" is the half range.
+                    let behind = M.last_inorder.wrapping_sub(*k) as usize;
+                    assert!(behind < 0x8000, "ORACLE store: ACK for a block that is not the last one received in sequence");
+                    if behind == 0 {
+                        assert!(file_equals_ghost(), "ORACLE store: ACK emitted while acknowledged bytes are not (exactly) in the file");
+                    } else {
+                        // every byte of blocks 1..k in the file: the blocks after k hold at most blksize bytes each
+                        assert!(file_prefix_of_ghost() && FS.len + behind * M.blk >= M.glen,
+                            "ORACLE store: ACK emitted while acknowledged bytes are not (exactly) in the file");
+                    }
                 }
                 if on(O_ACKCAD) {
                     assert!(M.ack != Need::MustNot, "ORACLE ackcad: ACK emitted where none is allowed");
